@@ -145,11 +145,12 @@ R.contract("schemathesis.schemas:BaseSchema.dispatch_hook", args={"self": Opq("A
 R.contract(OAS + "BaseOpenAPISchema._resolve_path_item", args={"self": Opq("Any"), "methods": Opq("Any")}, returns=lambda it, env: (Str.make(it, it.path.fresh("scope")), env["methods"]),
            raises=["RefResolutionError"], trusted=True, note="E3: (scope, the path item with a top-level $ref resolved) or an unresolvable reference")
 R.contract(OAS + "in_scope", args={"resolver": Opq("Any"), "scope": Opq("Any")}, returns=lambda it, env: it.B.NoopCM(None), trusted=True, note="pushes / pops the resolution scope (E3)")
-R.contract(OAS + "BaseOpenAPISchema._resolve_operation", args={"self": Opq("Any"), "operation": Opq("Any")}, returns=lambda it, env: env["operation"], raises=["KeyError"], trusted=True,
-           note="E3: the operation with references resolved, or a schema parsing error")
+R.contract(OAS + "BaseOpenAPISchema._resolve_operation", args={"self": Opq("Any"), "operation": Opq("Any")}, returns=lambda it, env: dict(env["operation"]), raises=["KeyError"], trusted=True,
+           effects={"resolved_defs": "ghost('resolved_defs') + ([result] if raised is None else [])"},
+           note="E3: the operation with references resolved (a new mapping, not the raw entry), or a schema parsing error")
 R.contract(OAS + "BaseOpenAPISchema._should_skip", args={"self": Opq("Any"), "path": Str, "method": Str, "definition": Opq("Any")},
            returns=lambda it, env: it.path.choose([(False, True), (True, True)], "deselected"), trusted=True,
-           effects={"skipped": "ghost('skipped') + ([(path, method)] if result else [])"}, note="C07 contracts: the filter decision for this operation")
+           effects={"skipped": "ghost('skipped') + ([(path, method)] if result else [])", "skip_defs": "ghost('skip_defs') + [definition]"}, note="C07 contracts: the filter decision for this operation")
 R.contract(OAS + "BaseOpenAPISchema.make_operation", args={"self": Opq("Any"), "path": Str, "method": Str, "parameters": Opq("Any"), "raw": Opq("Any"), "resolved": Opq("Any"), "scope": Opq("Any"),
                                                               "with_security_parameters": Opq("Any")},
            returns=Opq("Operation"), trusted=True, effects={"made": "ghost('made') + [(path, method)]", "made_with": "ghost('made_with') + [parameters]"},
@@ -167,9 +168,11 @@ R.contract(
     OAS + "BaseOpenAPISchema.get_all_operations",
     prop="C08",
     args={"self": Obj(OAS + "BaseOpenAPISchema", raw_schema=DictOf(required={"paths": DictOf(optional={"/a": PI, "/b": PI1})}), resolver=Opq("Resolver")), "generation_config": NoneT},
-    ghost={"made": [], "made_with": [], "errs": [], "skipped": []},
+    ghost={"made": [], "made_with": [], "errs": [], "skipped": [], "skip_defs": [], "resolved_defs": []},
     raises=[],
     ensures={
+        # C07: the filters (expressions, custom functions, tags, operationId, deprecated) decide on the RESOLVED definition of the operation, never on the raw entry with its $refs
+        "filters_decide_on_the_resolved_definition": "all(any(d is r for r in ghost('resolved_defs')) for d in ghost('skip_defs'))",
         # every documented operation is offered with its parameters, reported as a schema error, or deselected by the filters - exactly once; a path item that cannot be resolved is reported once
         "each_documented_operation_exactly_once": "all(ghost('made').count(pm) + ghost('errs').count(pm) + ghost('skipped').count(pm) == 1 or ghost('errs').count((pm[0], None)) == 1 for pm in " + DOC + ")",
         "nothing_invented": "all(pm in " + DOC + " for pm in ghost('made') + ghost('skipped')) and all(pm in " + DOC + " or (pm[1] is None and pm[0] in all_paths(self)) for pm in ghost('errs'))",
